@@ -1,8 +1,62 @@
-(* runner/Tables/rib_glue.ml — RIB part of the Tables runner (model of fw/table/rib.go and the flattening spec). *)
+(* runner/Tables/rib_glue.ml — RIB part of the Tables runner: the model of fw/table/rib.go (rib_step, emitting FIB
+   operations) and the C06 specification (flattening of the registered routes) evaluated on the implementation's answers. *)
 open Tables_model
-type t = unit
-let init : t = ()
-let step (r : t) (_fields : string list) : t * fibop list = (r, [])
-let want_nh (_ : t) (_ : name) : string = "-"
-let want_listing (_ : t) : string = "-"
-let handle_obs (_ : t) (_case : string) (_opno : int) (_label : string) (_kind : string) (_value : string) : unit = ()
+open Conv
+
+type t = { rib : rib; rs : rspec }
+let init : t = { rib = rib_init; rs = [] }
+
+let ribop_of (fields : string list) : ribop option =
+  match fields with
+  | ["reg"; nm; f; o; c; fl] ->
+      Some (Reg (name_of_string nm, { r_face = n_of_dec f; r_origin = n_of_dec o; r_cost = n_of_dec c; r_flags = n_of_dec fl }))
+  | ["unreg"; nm; f; o] -> Some (Unreg (name_of_string nm, n_of_dec f, n_of_dec o))
+  | ["cleanup"; f] -> Some (Cleanup (n_of_dec f))
+  | _ -> None
+
+(* Go iterates the min-cost map in arbitrary order; the runner uses the identity and compares next hops as sets *)
+let step (r : t) (fields : string list) : t * fibop list =
+  match ribop_of fields with
+  | Some o ->
+      let (rib', fops) = rib_step (fun l -> l) r.rib o in
+      ({ rib = rib'; rs = rspec_step r.rs o }, fops)
+  | None -> failwith "bad rib op"
+
+let want_nh (r : t) (nm : name) : string = string_of_nh (want_lookup r.rs nm)
+let want_listing (r : t) : string = canon_listing (fib_listing_string (Tables_model.want_listing r.rs))
+
+let string_of_route (x : route) : string =
+  String.concat ":" [dec_of_n x.r_face; dec_of_n x.r_origin; dec_of_n x.r_cost; dec_of_n x.r_flags]
+let route_of_string (s : string) : route =
+  match String.split_on_char ':' s with
+  | [f; o; c; fl] -> { r_face = n_of_dec f; r_origin = n_of_dec o; r_cost = n_of_dec c; r_flags = n_of_dec fl }
+  | _ -> failwith ("bad route " ^ s)
+let routes_string ?(sorted = false) (l : route list) : string =
+  if l = [] then "-" else
+  let items = List.map string_of_route l in
+  String.concat "," (if sorted then List.sort compare items else items)
+
+let handle_obs (r : t) (case : string) (opno : int) (label : string) (kind : string) (value : string) : unit =
+  match kind with
+  | "rib" ->
+      (* GetAllEntries: name=routes (sorted) for every entry with routes *)
+      let mv = join_sorted (List.map (fun (nm, rs) -> string_of_name nm ^ "=" ^ routes_string ~sorted:true rs) (list_rib r.rib)) in
+      if mv <> join_sorted (items_of value) then
+        Printf.printf "DIVERGE %s %d %s rib model=%s impl=%s\n" case opno label mv value;
+      let sv = join_sorted (List.filter_map (fun (nm, _) ->
+                   match rget r.rs nm with [] -> None | rs -> Some (string_of_name nm ^ "=" ^ routes_string ~sorted:true rs)) r.rs) in
+      if sv <> join_sorted (items_of value) then
+        Printf.printf "ORACLE %s %d %s rib want=%s got=%s\n" case opno label sv value
+  | "rnodes" ->
+      let mv = join_sorted (List.map (fun (nm, nd) ->
+                   string_of_name nm ^ "=" ^ (if nd.rn_named then "1" else "0") ^ "=" ^ routes_string nd.rn_routes) r.rib) in
+      if mv <> join_sorted (items_of value) then
+        Printf.printf "DIVERGE %s %d %s rnodes model=%s impl=%s\n" case opno label mv value;
+      let impl = List.map (fun it -> match fields_of it with
+                                     | [nm; named; rs] ->
+                                         (name_of_string nm,
+                                          { rn_named = (named = "1");
+                                            rn_routes = if rs = "-" then [] else List.map route_of_string (String.split_on_char ',' rs) })
+                                     | _ -> failwith ("bad rib node " ^ it)) (items_of value) in
+      if not (rib_minimal_b impl) then Printf.printf "MINIMAL %s %d %s rnodes=%s\n" case opno label value
+  | _ -> ()
